@@ -9,8 +9,8 @@ from .xt import veq
 
 VMODES = ["ramp", "extreme", "minimal", "long"]
 PY_FORMS = ["py"]
-ND = ["nd", "ndF", "ndS", "ndD", "ndR"]
-XOBJ = ["xobj-same", "xobj-other", "xobj-ctx", "xobj-kind", "xobj-nested", "xobj-slack", "ref-same", "ref-foreign", "xobj-view", "xobj-nested-view"]
+ND = ["nd", "ndF", "ndS", "ndD", "ndR", "ndFD", "ndTD"]
+XOBJ = ["xobj-same", "xobj-other", "xobj-ctx", "xobj-kind", "xobj-nested", "xobj-slack", "ref-same", "ref-foreign", "xobj-view", "xobj-nested-view", "xobj-twin", "xobj-capslack"]
 CAP = ["cap"]
 
 
@@ -76,6 +76,12 @@ def forms_for(t, v, want):
                 out.append(f)
         elif f == "xobj-slack":
             if has_str and xt.py_expressible(t, v):
+                out.append(f)
+        elif f == "xobj-capslack":
+            if has_str and xt.py_expressible(t, v):
+                out.append(f)
+        elif f == "xobj-twin":
+            if t[0] == "A" and len(t[2]) >= 2 and not xt.has_refs(t):
                 out.append(f)
         elif f in ("ref-same", "ref-foreign"):
             if xt.has_refs(t) and t[0] != "U" and xt.py_expressible(t, v):
@@ -153,6 +159,67 @@ def inflate(t, v):
         return None if v is None else (v[0], inflate(t[1][v[0]], v[1]))
 
 
+def cap_arg(t, v, c=None):
+    """plain data in which every string is an integer capacity large enough for its final value, mostly NOT a whole
+    number of slots"""
+    if c is None:
+        c = xt.Ctr()
+    k = t[0]
+    if k == "Str":
+        n = c.nxt()
+        if v == "":
+            return [5, 3, 1, 7][n % 4]  # stays as created: an empty string in less than two slots
+        return xt.slot(len(v.encode("utf8")) + 9) - 8 + [5, 0, 3][n % 3]
+    if k == "S":
+        return v
+    if k == "St":
+        return {n_: cap_arg(ft, v[n_], c) for n_, ft in t[1]}
+    if k == "A":
+        shape = v["shape"]
+
+        def rec(prefix, d):
+            if d == len(shape):
+                return cap_arg(t[1], v["items"][prefix], c)
+            return [rec(prefix + (i,), d + 1) for i in range(shape[d])]
+
+        return rec((), 0)
+    if k == "R":
+        return None if v is None else cap_arg(t[1], v, c)
+    if k == "U":
+        return None if v is None else (xt.build(t[1][v[0]]).__name__, cap_arg(t[1][v[0]], v[1], c))
+
+
+def some_empty(t, v, c=None):
+    """the same value with every other string emptied"""
+    if c is None:
+        c = xt.Ctr()
+    k = t[0]
+    if k == "Str":
+        return "" if c.nxt() % 2 else v
+    if k == "S":
+        return v
+    if k == "St":
+        return {n_: some_empty(ft, v[n_], c) for n_, ft in t[1]}
+    if k == "A":
+        return {"shape": v["shape"], "items": {i: some_empty(t[1], x, c) for i, x in v["items"].items()}}
+    if k == "R":
+        return None if v is None else some_empty(t[1], v, c)
+    if k == "U":
+        return None if v is None else (v[0], some_empty(t[1][v[0]], v[1], c))
+
+
+def capslack_source(t, v, **kw):
+    """an object holding v whose strings were created from capacities (sizes that are not whole slots); the non-empty ones
+    were assigned afterwards, the empty ones stay as created"""
+    from . import hand
+
+    src = xt.construct(t, cap_arg(t, v), **kw)
+    for path, lt, lv in xt.leaf_paths(t, v):
+        if lt[0] == "Str" and lv != "":
+            hand.assign(t, src, path, lv)
+    return src
+
+
 def slack_source(t, v, **kw):
     """an object holding v whose strings were created longer and then assigned their (fitting) final value:
     a legitimate object with slack inside"""
@@ -227,11 +294,21 @@ def execute(t, v, form, pname, salt=0):
             kw = dict(_buffer=place.traced("np", 0))
         elif form == "xobj-kind":
             kw = dict(_buffer=place.traced("ba", 0))
-        elif form in ("xobj-slack", "xobj-view"):
+        elif form in ("xobj-slack", "xobj-view", "xobj-twin", "xobj-capslack"):
             kw = dict(_buffer=place.traced("np", 0))
         else:
             kw = dict(_buffer=place.traced("np", 0, context=place.ctx(1)))
-        if form == "xobj-slack":
+        if form == "xobj-twin":
+            # the source is an array of ANOTHER class that has the same generated name (same dims and item, other axis
+            # order) and holds the same logical value
+            tw = xt.twin(t)
+            o.src = xt.construct(tw, base_arg(tw, v), **kw)
+        elif form == "xobj-capslack":
+            o.expect = v = some_empty(t, v)
+            o.v = v
+            o.src = capslack_source(t, v, **kw)
+            o.size_model = None
+        elif form == "xobj-slack":
             o.src = slack_source(t, v, **kw)
             o.size_model = None  # anything between the minimal layout and the source's extent is legitimate
         else:
